@@ -2,8 +2,8 @@
 //! Correspondence: Suggestion::apply vs Model/Suggestion.v (extracted) on (text, span, suggestion) triples,
 //! panics included.  Oracle: every lint of every front-end document is in bounds and every suggestion
 //! applies as the splice.
-use crate::common::*;
-use crate::frontends;
+use hv::common::*;
+use hv::frontends;
 use harper_core::linting::{LintGroup, Linter, Suggestion};
 use harper_core::{Dialect, FstDictionary, Span};
 use serde_json::{json, Value};
@@ -235,4 +235,9 @@ pub fn run(a: &Args, corpus: &[Value]) {
         }
     }
     rep.finish();
+}
+
+fn main() {
+    let (args, corpus) = hv::cli();
+    run(&args, &corpus);
 }
